@@ -290,6 +290,10 @@ def write_evidence(args, prop, tier, results, viol_runs, known_hits, other, harn
     if not samples and results:
         samples = [{"run": results[0]["idx"], "outcomes": results[0].get("outcomes", [])[:40]}]
     P = props.PROPS[prop]
+    agg["edits"] = agg.get("edit_ok", 0) + agg.get("edit_rej", 0)
+    agg["analyses"] = sum(v for k, v in agg.items() if k.startswith("analysis:"))
+    agg["c03_calls"] = sum(v for k, v in agg.items() if k.startswith("c03_outcome:"))
+    cases = agg.get(props.CASE_COUNTER.get(prop, ""), 0) or len(results)
     probes = {k: agg.get(k, 0) for k in P.get("probes", [])}
     stuck = [k for k, v in probes.items() if v == 0]
     ev = {
@@ -298,7 +302,9 @@ def write_evidence(args, prop, tier, results, viol_runs, known_hits, other, harn
         "seed": args.seed,
         "level": P["level"],
         "coverage": {
-            "evaluations": len(results),
+            "evaluations": int(cases),
+            "evaluations_unit": props.CASE_COUNTER.get(prop, "sessions"),
+            "sessions": len(results),
             "distinct_nontrivial": len(nt),
             "rule": P["rule"],
             "samples": samples,
